@@ -337,7 +337,7 @@ def check_config(chi_sym, kinds_dims, n_ids):
 # ---------------------------------------------------------------------------
 # native replay of a failing configuration
 # ---------------------------------------------------------------------------
-def native_witness(kinds_dims, n_ids, seed):
+def native_witness(kinds_dims, n_ids, seed, int_inputs=False):
     import chi as real
     from scipy.stats import norm, lognorm
     rng = np.random.default_rng(seed)
@@ -395,6 +395,22 @@ def native_witness(kinds_dims, n_ids, seed):
         hll = real.HierarchicalLogLikelihood(lls, pop, covariates=cov)
     except Exception as ex:
         return {'what': 'construction of the hierarchical log-likelihood raises %r' % (ex,), 'composition': [list(k) for k in kinds_dims], 'expected': 'an evaluable object', 'observed': repr(ex)}
+    if int_inputs:
+        # integer-typed parameter vectors are valid inputs: the result must be the one of the same numbers as floats (no silent truncation
+        # of transformed individual parameters / covariate-shifted population parameters into an integer buffer)
+        xi = [1 if not str(sy).startswith('het') else 2 for sy in lay.vector]
+        try:
+            a_ = hll(list(xi))
+            b_ = hll(np.array(xi, dtype=int))
+            c_ = hll(np.array(xi, dtype=float))
+            sa, ga = hll.evaluateS1(np.array(xi, dtype=int))
+            sc, gc = hll.evaluateS1(np.array(xi, dtype=float))
+        except Exception as ex:
+            return {'what': 'evaluation at an integer-typed vector raises %r' % (ex,), 'composition': [list(k) for k in kinds_dims], 'expected': 'a value', 'observed': repr(ex)}
+        if not (np.isclose(a_, c_, rtol=1e-12, atol=1e-12, equal_nan=True) and np.isclose(b_, c_, rtol=1e-12, atol=1e-12, equal_nan=True) and np.isclose(sa, sc, equal_nan=True) and np.allclose(ga, gc, equal_nan=True)):
+            return {'what': 'composition %s: the vector %s gives %r as a list of ints, %r as an integer array and %r as a float array (gradients equal: %s)' % (kinds_dims, xi, a_, b_, c_, bool(np.allclose(ga, gc, equal_nan=True))),
+                    'composition': [list(k) for k in kinds_dims], 'expected': float(c_), 'observed': float(a_)}
+        return None
     # numeric instance
     vals = {}
     for sy in lay.vector:
@@ -544,6 +560,12 @@ def run_chunk(rec, chunk_id, n_chunks):
                 return ('undecided', 'symbolic execution', '%s | composition %s' % (msg, kd))
             return ('discharged', 'symbolic execution of the real classes + sigma-normal-form/cancel + z3', '%d compositions in this chunk' % n_done)
         rec.run('chunk%02d/%s' % (chunk_id, ob), funcs, 'Pκ', go)
+
+    def int_case(kd):
+        w_ = native_witness(kd, 2, rec.seed, int_inputs=True)
+        return None if w_ is None else w_['what']
+    rec.native_check('chunk%02d/integer.inputs' % chunk_id, funcs, mine, int_case,
+                     'every composition of this chunk evaluated natively at an integer-valued vector given as list of ints / integer array / float array (fractional covariates); distinct by composition', exhaustive=True)
 
 
 N_CHUNKS = 16
